@@ -202,11 +202,16 @@ Proof.
     [apply insert_schema_rows_c; exact H | apply res_rel_same; exact H].
 Qed.
 
+Lemma create_bad_rows_c a b name fds : seq a b -> create_bad_rows a name fds = create_bad_rows b name fds.
+Proof. intros S. unfold create_bad_rows. rewrite (seq_rel_offset a b _ S). reflexivity. Qed.
+
 Lemma st_create_table_c a b name fds : seqc a b ->
   res_rel (st_create_table a name fds) (st_create_table b name fds).
 Proof.
   intros H. pose proof (sc_seq _ _ H) as S. unfold st_create_table.
-  destruct (names_distinct _); [|apply res_rel_same; exact H]. unfold st_create_table0.
+  destruct (names_distinct _); [|apply res_rel_same; exact H].
+  rewrite (create_bad_rows_c a b name fds S).
+  destruct (create_bad_rows b name fds); [apply res_rel_same; exact H|]. unfold st_create_table0.
   rewrite (seq_rel_offset a b _ S).
   destruct (rel_offset b name) as [o|e|]; try (apply res_rel_same; exact H).
   destruct e; try (apply res_rel_same; exact H).
@@ -248,6 +253,23 @@ Proof.
   destruct ra as [ws|e|]; [apply IH; exact S1 | repeat split; auto; apply S1 | repeat split; auto; apply S1].
 Qed.
 
+(* the checks in front of the row loops read the same in both stores *)
+Lemma ins_precheck_c a b name cols vals : seq a b -> ins_precheck a name cols vals = ins_precheck b name cols vals.
+Proof.
+  intros S. unfold ins_precheck. rewrite (seq_rel_offset a b _ S), (seq_rel_schema a b _ S).
+  destruct (rel_offset b name) as [off|e|]; cbn [bind]; try reflexivity.
+  destruct (seq_get_tree_same a b off S) as [(ta & tb & -> & -> & _)|(e & -> & ->)]; reflexivity.
+Qed.
+
+Lemma check_insert_c a b name cols vals : seq a b -> check_insert a name cols vals = check_insert b name cols vals.
+Proof. intros S. unfold check_insert. rewrite (ins_precheck_c a b name cols vals S). reflexivity. Qed.
+
+Lemma check_update_c a b name k cols vals : seqc a b -> check_update a name k cols vals = check_update b name k cols vals.
+Proof. intros H. unfold check_update. destruct (st_update_c a b name k cols vals H) as [_ ->]. reflexivity. Qed.
+
+Lemma first_err_ext' {A} (f g : A -> res unit) l : (forall a, f a = g a) -> first_err f l = first_err g l.
+Proof. intros H. induction l as [|x l IH]; [reflexivity|]. cbn [first_err]. rewrite H, IH. reflexivity. Qed.
+
 Lemma where_ids_c a b name w : seq a b -> where_ids a name w = where_ids b name w.
 Proof. intros S. unfold where_ids. rewrite (seq_st_fetch a b name S). reflexivity. Qed.
 
@@ -268,12 +290,17 @@ Proof.
   - destruct (st_create_table_c a b name (map fielddef_of cols) H) as [S1 R1].
     destruct (st_create_table a name _) as [a1 ra], (st_create_table b name _) as [b1 rb]. cbn [fst snd] in *. subst rb.
     destruct ra as [u|e|]; repeat split; cbn [e_store]; auto; try apply S1. apply flush_c. exact S1.
-  - destruct (insert_rows_c rows a b table cols [] 0%nat H) as (A & B & C).
+  - rewrite (first_err_ext' _ _ rows (fun r => check_insert_c a b table cols r S)).
+    destruct (first_err _ rows) as [u|e|]; try (repeat split; auto; apply H).
+    destruct (insert_rows_c rows a b table cols [] 0%nat H) as (A & B & C).
     destruct (insert_rows a table cols rows [] 0) as [[a1 ba] oa], (insert_rows b table cols rows [] 0) as [[b1 bb] ob].
     cbn [fst snd] in *. subst. repeat split; auto; apply A.
   - destruct (existsb _ sets); [repeat split; auto; apply H|].
     rewrite (where_ids_c a b table where_ S).
     destruct (where_ids b table where_) as [ids|e|]; try (repeat split; auto; apply H).
+    match goal with |- context [first_err (fun k => check_update a table k ?c ?v) ids] =>
+      rewrite (first_err_ext' _ _ ids (fun k => check_update_c a b table k c v H)) end.
+    destruct (first_err _ ids) as [u|e|]; try (repeat split; auto; apply H).
     match goal with |- context [update_rows a table ?c ?v ids []] => destruct (update_rows_c ids a b table c v [] H) as (A & B & C);
       destruct (update_rows a table c v ids []) as [[a1 ba] oa], (update_rows b table c v ids []) as [[b1 bb] ob] end.
     cbn [fst snd] in *. subst. repeat split; auto; apply A.
